@@ -15,6 +15,11 @@ HAND = [
     "function f(c) { var x = 3; var y = x * 2 + 1; if (y == 7) { return 1; } return 2; }",
     "template T(n) { signal input in; signal output out; var x = in; var y = x * x; if (n) { y = y * x; } out <-- y; }",
     "function f(c) { var x = 1; while (c < 3) { x = 1; c++; } if (x == 1) { return c; } return 2; }",
+    # shapes of the seeded changes C20 m1/m2: a second element assignment while the first is still resolving; a signal assigned in both
+    # branches, one right-hand side folding in more passes than the other, read after the join
+    "template T(n) { signal input in; signal output out; var a[2]; a[0] = in * in * in; a[1] = in; out <-- a[0]; }",
+    "template T(n) { signal input in; signal output out; signal s; if (n) { s <-- (1 + 1) * (1 + 1) - 3; } else { s <-- 2; } if (s == 2) { out <== in; } else { out <== 0; } }",
+    "template T(n) { signal input in; signal output out; signal s; if (n) { s <-- 2; } else { s <-- (1 + 1) * (1 + 1) - 3; } if (s == 2) { out <== in; } else { out <== 0; } }",
 ]
 
 
@@ -29,6 +34,7 @@ def run(ctx):
     budgets = list(range(0, 14)) + [18, 25, 40, 70, 120] if ctx.tier == "quick" else list(range(0, 40)) + [50, 70, 100, 150, 250, 400]
     for which in ("value_passes", "degree_passes"):
         done = set()
+        broken = {}        # definition -> first correspondence failure; the definition stays in the sweep so that the oracles search all budgets
         for k in budgets:
             todo = [i for i in range(len(srcs)) if i not in done]
             if not todo:
@@ -48,14 +54,16 @@ def run(ctx):
                 real = proplib.flatten_cfg(ssa)
                 l2_bad = None
                 nviol = len(ctx.violations) + len(ctx.known_hits)
-                if real != anns:
+                if real != anns and i in broken:
+                    l2_bad = broken[i]
+                elif real != anns:
                     l2 += 1
                     diffs = [(j, a, b) for j, (a, b) in enumerate(zip(real, anns)) if a != b][:5]
                     # the correspondence is broken: the oracles below search this prefix state for a concrete false claim
                     l2_bad = {"stage": "L2 annotations after k passes: real vs Lean model", "source": srcs[i], "loop": which,
                               "k": k, "first_differences": diffs, "broken": "correspondence Propagate.%s <-> cfg.rs loop with pass budget" %
                               ("valLoop" if which == "value_passes" else "degLoop")}
-                    done.add(i)
+                    broken[i] = l2_bad
                 # (monotonicity in k is checked below on one fixed statement order: the order of phi statements
                 # differs from run to run (hash order), so node positions of different runs are not comparable)
                 # soundness of the prefix state
@@ -70,7 +78,9 @@ def run(ctx):
                     cl = c06.claims(ssa)
                     phic = vlib.run_model(["phicomplete " + vlib.sexp(ssa)])[0] if cl and (k in (1, 3, 6, 12) or l2_bad) else "complete"
                     incomplete = phic.startswith("incomplete")
-                    if cl and not incomplete and (k in (1, 3, 6, 12) or l2_bad):
+                    for _rep in range(4 if l2_bad else 1):
+                        if not (cl and not incomplete and (k in (1, 3, 6, 12) or l2_bad)):
+                            break
                         cache = {}
                         rng = ctx.rng
 
@@ -92,17 +102,17 @@ def run(ctx):
                                             ctx.violation("prefix-false-constant", {"stage": "L1 C06 oracle on the state after k passes", "source": srcs[i], "k": k,
                                                                                     "node": list(key), "claimed": cl[key][0], "observed": str(v), "broken": None})
                 if l2_bad:
-                    l1_before = getattr(run, "_l1", 0)
-                    if l1 == l1_before:
-                        ctx.violation("prefix-correspondence", l2_bad, no_input=True)
-                    run._l1 = l1
+                    if len(ctx.violations) + len(ctx.known_hits) > nviol:
+                        broken[i]["found"] = True
                     continue
-                run._l1 = l1
                 fix = fv if which == "value_passes" else fd
                 if fix:
                     done.add(i)
                     stats["fixpoints reached (%s)" % which] += 1
                     stats["max passes to fixpoint"] = max(stats["max passes to fixpoint"], k)
+        for i, b in broken.items():
+            if not b.pop("found", False):
+                ctx.violation("prefix-correspondence", b, no_input=True)
         if len(samples) < 2:
             samples.append({"loop": which, "budgets": budgets[:8], "definitions": len(srcs)})
         # monotonicity: on the SSA CFG of one run (fixed statement order) the model's states for k = 0, 1, 2, ... must only
